@@ -578,12 +578,10 @@ theorem inv_stepRewrite (s : State) (hs : Inv s) (i : Nat) (c : Oid) : Inv (step
   split
   · exact hs
   · rename_i cl hi
-    split
-    · exact inv_addNote s hs i cl
-        { cl with loc := some (addNote cl.loc (s.next + 1) c s.next) }
-        hi (s.next + 1) c s.next (s.next + 2)
-        (by omega) (by omega) rfl rfl _ (Or.inl rfl)
-    · exact hs
+    exact inv_addNote s hs i cl
+      { cl with loc := some (addNote cl.loc (s.next + 1) c s.next) }
+      hi (s.next + 1) c s.next (s.next + 2)
+      (by omega) (by omega) rfl rfl _ (Or.inl rfl)
 
 theorem inv_stepFetch (s : State) (hs : Inv s) (i : Nat) : Inv (stepFetch s i) := by
   unfold stepFetch
@@ -725,10 +723,8 @@ theorem cloneStep_rewrite (s : State) (i : Nat) (c : Oid) : CloneStepAt i s (ste
   split
   · exact Or.inl rfl
   · rename_i cl hi
-    split
-    · exact Or.inr ⟨cl, _, hi, rfl, fun l h => ⟨_, rfl, fun k hk => by
-        rw [h]; exact hasKey_addNote_mono l _ _ _ k hk⟩⟩
-    · exact Or.inl rfl
+    exact Or.inr ⟨cl, _, hi, rfl, fun l h => ⟨_, rfl, fun k hk => by
+      rw [h]; exact hasKey_addNote_mono l _ _ _ k hk⟩⟩
 
 theorem cloneStep_fetch (s : State) (hs : Inv s) (i : Nat) : CloneStepAt i s (stepFetch s i) := by
   unfold stepFetch
@@ -837,9 +833,7 @@ theorem remote_commit (s : State) (i : Nat) : (stepCommit s i).remote = s.remote
   unfold stepCommit; split <;> rfl
 
 theorem remote_rewrite (s : State) (i : Nat) (c : Oid) : (stepRewrite s i c).remote = s.remote := by
-  unfold stepRewrite; split
-  · rfl
-  · split <;> rfl
+  unfold stepRewrite; split <;> rfl
 
 theorem remoteHas_pSend (s : State) (hs : Inv s) (i : Nat) (k : Oid) (h : remoteHas s k) :
     remoteHas (stepPSend s i) k := by
@@ -1244,9 +1238,7 @@ theorem noteIds_step (s : State) (h : NoteIds s) (op : Op) : NoteIds (step s op)
     show NoteIds (stepRewrite s i c)
     unfold stepRewrite; split
     · exact h
-    · split
-      · exact noteIds_write s _ h _ _ _ rfl (Nat.le_refl _) (by show s.next < s.next + 2; omega)
-      · exact h
+    · exact noteIds_write s _ h _ _ _ rfl (Nat.le_refl _) (by show s.next < s.next + 2; omega)
   | fetch i => exact noteIds_same s _ h (wr_next_fetch s i).1 (wr_next_fetch s i).2
   | pull i => exact noteIds_same s _ h (wr_next_fetch s i).1 (wr_next_fetch s i).2
   | push i =>
